@@ -42,7 +42,7 @@ Lemma inuse_drop_entry m k f x : inuse (drop_entry m k f x) = inuse x.
 Proof. unfold drop_entry. now destruct (alookup k m). Qed.
 (* no client-side event ever stops the driver *)
 Theorem c12_driver_survives s e : (match e with DrvEnd _ | DrvOp | DrvResp => False | _ => True end) -> drv (step s e) = drv s.
-Proof. destruct e; try contradiction; intros _; unfold step;
+Proof. destruct e; try contradiction; intros _; unfold step, alloc, enqueue;
   repeat match goal with |- context [match ?x with _ => _ end] => destruct x end;
   cbn [drv set]; rewrite ?drv_drop_entry; cbn [drv set]; rewrite ?drv_drop_entry; reflexivity. Qed.
 
